@@ -42,8 +42,13 @@ fn euc(ctx: &mut Ctx, op: &str, s: &Tab, deep: bool, rep: usize, extra: &str) {
         ctx.skip();
         return;
     }
-    let cls = class_of(s);
-    let tag = format!("{}size={} class={} {}", if cls != "no" { "nt " } else { "" }, s.size, cls, extra);
+    let (cls, reason) = match catch_unwind(AssertUnwindSafe(|| verdict(s))) {
+        Ok(v) => v,
+        Err(_) => ("panic".to_string(), "-".to_string()),
+    };
+    // non-trivial: the verdict is not settled by the invariant table alone
+    let nt = reason != "orbifold_invariants_do_not_match";
+    let tag = format!("{}size={} class={} reason={} {}", if nt { "nt " } else { "" }, s.size, cls, reason, extra);
     ctx.case(
         op,
         &tag,
